@@ -80,19 +80,15 @@ Theorem json_u_escape_spec : forall (c : N) (tail acc : list N), scalar c = true
 Proof. exact u_escape_spec. Qed.
 Print Assumptions json_u_escape_spec.
 
-(* ... and by the combination written in tape.rs (M) exactly on the scalar values whose high surrogate has
-   bit 6 of (high - 0xD800) clear; the full statement (all scalar values) is false for M: *)
-Theorem json_u_escape_impl_partial : forall (c : N) (tail acc : list N), scalar c = true ->
-  (c < 65536 \/ N.testbit ((c - 65536) / 1024) 6 = false) ->
+(* ... and by the combination written in tape.rs (M), for every scalar value: M = S *)
+Theorem json_u_escape_impl : forall (c : N) (tail acc : list N), scalar c = true ->
   unescape_go sp_combine (u_escape c ++ tail) acc = unescape_go sp_combine tail (rev (Utf8.encode c) ++ acc).
 Proof. exact u_escape_impl. Qed.
-Print Assumptions json_u_escape_impl_partial.
+Print Assumptions json_u_escape_impl.
 
-Theorem json_u_escape_impl_refuted :
-  unescape sp_combine (u_escape 131072 ++ [34]) = Some (Utf8.encode 65536, []) /\
-  unescape sp_spec (u_escape 131072 ++ [34]) = Some (Utf8.encode 131072, []) /\ Utf8.encode 65536 <> Utf8.encode 131072.
-Proof. exact u_escape_impl_refuted_witness. Qed.
-Print Assumptions json_u_escape_impl_refuted.
+Theorem json_surrogate_combine_spec : forall (high low : N), sp_combine high low = sp_spec high low.
+Proof. exact sp_combine_ok. Qed.
+Print Assumptions json_surrogate_combine_spec.
 
 (* CSV (rc d q e dbl / wc d q e crlf dbl are the reader / writer configurations of Proofs/C17_Csv.v: dbl = true
    is quote doubling read by the default reader, dbl = false escape-style quoting read with escape e):
